@@ -48,6 +48,15 @@ func Psi_I(p types.WorkPackage, c types.CoreIndex, authorizerCode types.ByteSequ
 		}
 	}
 
+	if resultM.ReasonOrBytes == nil {
+		// a halt with an empty output range: the result is the empty blob, not a panic
+		return Psi_I_ReturnType{
+			WorkExecResult: types.WorkExecResultOk,
+			WorkOutput:     []byte{},
+			Gas:            types.Gas(resultM.Gas),
+		}
+	}
+
 	workOutput, ok := resultM.ReasonOrBytes.([]byte)
 	if !ok {
 		return Psi_I_ReturnType{
